@@ -24,6 +24,12 @@ pub static VERIF_LIVE_RANGES: std::sync::Mutex<std::collections::BTreeMap<usize,
 /// Conceptually, [`Chunk`] is a `Box<[u8]>`, but we convert to/from
 /// [`NonNull`] at construction and destruction in order to avoid
 /// aliasing footguns.
+/// Verification hook: chunk start address -> creation serial number (1, 2, ... process-wide),
+/// so that a chunk freed and another one created at the same address can be told apart.
+#[cfg(woodpile_verif)]
+pub static VERIF_CHUNK_SERIALS: std::sync::Mutex<(usize, std::collections::BTreeMap<usize, usize>)> =
+    std::sync::Mutex::new((0, std::collections::BTreeMap::new()));
+
 #[derive(Debug)]
 pub struct Chunk {
     storage: NonNull<[MaybeUninit<u8>]>,
@@ -42,6 +48,10 @@ impl Chunk {
                 .lock()
                 .unwrap()
                 .insert(start, start + storage.len());
+            let mut serials = VERIF_CHUNK_SERIALS.lock().unwrap();
+            serials.0 += 1;
+            let next = serials.0;
+            serials.1.insert(start, next);
         }
 
         Chunk {
@@ -72,6 +82,12 @@ impl Drop for Chunk {
         VERIF_LIVE_RANGES
             .lock()
             .unwrap()
+            .remove(&(storage.as_ptr() as usize));
+        #[cfg(woodpile_verif)]
+        VERIF_CHUNK_SERIALS
+            .lock()
+            .unwrap()
+            .1
             .remove(&(storage.as_ptr() as usize));
 
         #[cfg(debug_assertions)]
